@@ -543,7 +543,7 @@ fn gen_sent(rng: &mut Rng, ix: u64) -> SEnt {
     if has(4) && rng.chance(50, 100) {
         attrs.push((3, rng.below(4)));
     }
-    if has(4) && rng.chance(22, 100) || rng.chance(2, 100) {
+    if has(4) && rng.chance(28, 100) || rng.chance(2, 100) {
         attrs.push((6, rng.below(2)));
     }
     // attributes outside the requested classes / not synchronisable / unknown
@@ -676,7 +676,7 @@ fn gen_op(rng: &mut Rng, cur: &MState) -> Op {
         let a = rng.range(1, 2);
         let mut ys = vec![];
         for y in [0u64, 1, 2, 3, 5, 6, 4] {
-            if rng.chance(if y >= 4 { 14 } else { 28 }, 100) {
+            if rng.chance(match y { 5 => 34, 4 | 6 => 10, _ => 28 }, 100) {
                 ys.push(y);
             }
         }
